@@ -924,7 +924,7 @@ Definition pk (x : string) : lk :=
   let c := orb (spec_comment x) (late_c x) in
   mkLk (all_blank x) c (negb (all_blank (takeS 5 x)))
        (andb (contains "#"%char (takeS 5 x)) (negb c))
-       (ends_with amp2 x) (ends_with amp2 (rstrip_blanks (spec_data x)))
+       (ends_with amp2 x) (andb (negb (contains "$"%char x)) (ends_with amp2 (rstrip_blanks x)))
        (if spec_comment x then [] else filter not_amp (words (spec_data x))).
 
 (* the class of a raw line (as iterated from the file) *)
@@ -949,10 +949,8 @@ Proof.
   - unfold lf. rewrite all_space_takeS_nl by auto. reflexivity.
   - rewrite is_comment_S5 by auto. unfold lf. rewrite contains_takeS_app by reflexivity. reflexivity.
   - unfold amp_nl, lf. apply ends_with_nl.
-  - unfold amp_data. fold amp2. f_equal. rewrite spec_data_app.
-    destruct (contains "$" x) eqn:Ed.
-    + apply rstrip_plain. apply all_plain_spec_data; auto.
-    + change (spec_data lf) with lf. rewrite (spec_data_no_dollar x) by auto. apply rstrip_plain_nl; auto.
+  - unfold amp_data. fold amp2. unfold lf. rewrite contains_app. cbn [contains]. rewrite orb_false_r.
+    rewrite rstrip_plain_nl by auto. reflexivity.
   - unfold lf. rewrite rstrip_plain_nl by auto. unfold line_words, spec_comment.
     rewrite spec_comment_from_rstrip, words_spec_data_rstrip. reflexivity.
 Qed.
@@ -1172,7 +1170,7 @@ Proof.
   rewrite filter_words_amp by auto.
   repeat split; auto.
   - unfold pk. cbn [k_start]. destruct Hd as [Hb _]. rewrite all_blank_takeS_app by auto. reflexivity.
-  - unfold pk. cbn [k_ampf]. rewrite spec_data_app, Hdol. change (spec_data amp2) with amp2.
+  - unfold pk. cbn [k_ampf]. rewrite contains_app, Hdol. cbn [orb contains negb andb].
     assert (a ++ amp2 = (a ++ String sp "") ++ String "&"%char "") as E by (rewrite sapp_assoc; reflexivity).
     rewrite E, rstrip_blanks_snoc by reflexivity. rewrite <- E. apply ends_with_app.
 Qed.
@@ -1189,7 +1187,7 @@ Lemma pk_cont : forall b n, head_ok b = true -> c_led (blanks n b) = false ->
   k_hash k = contains "#"%char (takeS 5 (blanks n b)) /\
   k_start k = negb (all_blank (takeS 5 (blanks n b))) /\
   k_words k = filter not_amp (words (spec_data b)) /\
-  k_ampf k = ends_with amp2 (rstrip_blanks (spec_data b)).
+  k_ampf k = andb (negb (contains "$"%char b)) (ends_with amp2 (rstrip_blanks b)).
 Proof.
   intros b n Hh Hc. destruct b as [|c t]; [discriminate|]. cbn [head_ok] in Hh.
   apply andb_true_iff in Hh. destruct Hh as [H1 H2]. apply negb_true_iff in H1. apply negb_true_iff in H2.
@@ -1198,20 +1196,17 @@ Proof.
   destruct (pk_data_line _ Hd) as (A1 & A2 & A3 & A4).
   cbv zeta. rewrite A1, A2, A3, A4. repeat split; auto.
   - rewrite spec_data_blanks, words_blanks. reflexivity.
-  - unfold pk. cbn [k_ampf]. rewrite spec_data_blanks. cbn [spec_data].
-    destruct (Ascii.eqb c "$") eqn:Ed.
-    + assert (rstrip_blanks (blanks n "") = "") as E.
-      { destruct n; auto. cbn [blanks rstrip_blanks]. cbn [all_blank]. rewrite all_blank_blanks. reflexivity. }
-      rewrite E. reflexivity.
-    + rewrite rstrip_blanks_lead by auto. cbn [rstrip_blanks all_blank]. rewrite H1. cbn [andb].
-      apply ends_with_blanks_body; auto.
+  - unfold pk. cbn [k_ampf]. rewrite contains_blanks by reflexivity. f_equal.
+    rewrite rstrip_blanks_lead by auto. cbn [rstrip_blanks all_blank]. rewrite H1. cbn [andb].
+    apply ends_with_blanks_body; auto.
 Qed.
 
 Lemma pk_dollar : forall a t, data_line a -> contains "$"%char a = false ->
+  ends_with amp2 (rstrip_blanks a) = false ->
   contains "#"%char (takeS 5 a) = false -> contains "#"%char (takeS 5 (a ++ String "$"%char t)) = false ->
   same_fix (pk a) (pk (a ++ String "$"%char t)).
 Proof.
-  intros a t Hd Hdol Hh Hh2.
+  intros a t Hd Hdol Hamp Hh Hh2.
   destruct (pk_data_line a Hd) as (A1 & A2 & A3 & A4).
   destruct (pk_data_line _ (data_line_app a (String "$"%char t) Hd)) as (B1 & B2 & B3 & B4).
   unfold same_fix. rewrite A1, A2, A3, A4, B1, B2, B3, B4, Hh, Hh2.
@@ -1220,7 +1215,7 @@ Proof.
     symmetry. apply spec_data_no_dollar; auto. }
   repeat split; auto.
   - unfold pk. cbn [k_start]. destruct Hd as [Hb _]. rewrite all_blank_takeS_app by auto. reflexivity.
-  - unfold pk. cbn [k_ampf]. rewrite Es. reflexivity.
+  - unfold pk. cbn [k_ampf]. rewrite contains_app, Hdol, Hamp. cbn [contains]. rewrite Ascii.eqb_refl. reflexivity.
   - rewrite Es. reflexivity.
 Qed.
 
@@ -1235,8 +1230,7 @@ Proof.
   repeat split; auto.
   - unfold pk. cbn [k_start]. destruct Hd as [Hb _]. rewrite all_blank_takeS_app by auto. reflexivity.
   - apply contains_takeS_app. rewrite contains_blanks; reflexivity.
-  - unfold pk. cbn [k_ampf]. rewrite spec_data_app. destruct (contains "$" a) eqn:Ed; auto.
-    rewrite (spec_data_no_dollar _ Eb), (spec_data_no_dollar _ Ed). rewrite rstrip_blanks_app_blanks. reflexivity.
+  - unfold pk. cbn [k_ampf]. rewrite contains_app, Eb, orb_false_r, rstrip_blanks_app_blanks. reflexivity.
   - rewrite spec_data_app. destruct (contains "$" a) eqn:Ed; auto.
     rewrite (spec_data_no_dollar _ Eb), (spec_data_no_dollar _ Ed). rewrite words_app_blanks. reflexivity.
 Qed.
@@ -1276,9 +1270,9 @@ Inductive data_step : list string -> list string -> Prop :=
     spec_comment c = true -> spec_comment c' = true ->
     data_step (pre ++ [c ++ e] ++ post) (pre ++ [c' ++ e'] ++ post)
 | DS_dollar : forall pre post a t e,
-    (* a '$' comment at the end of a data line *)
+    (* a '$' comment at the end of a data line that is not continued by '&' *)
     all_plain a = true -> all_plain t = true -> eol e ->
-    data_line a -> contains "$"%char a = false ->
+    data_line a -> contains "$"%char a = false -> ends_with amp2 (rstrip_blanks a) = false ->
     contains "#"%char (takeS 5 a) = false -> contains "#"%char (takeS 5 (a ++ String "$"%char t)) = false ->
     data_step (pre ++ [a ++ e] ++ post) (pre ++ [a ++ String "$"%char t ++ e] ++ post)
 | DS_trail : forall pre post a n e,
@@ -1568,10 +1562,6 @@ Definition wit3' : list string := mk3 [wt] ["1 0 -1" ++ lf] ["c see &" ++ lf] ["
 (* 4  a '$' comment whose text ends in " &" *)
 Definition wit4 : list string := mk3 [wt] [] ["1 0 -1 " ++ lf] ["2 0 1" ++ lf].
 Definition wit4' : list string := mk3 [wt] [] ["1 0 -1 " ++ String "$"%char " a &" ++ lf] ["2 0 1" ++ lf].
-(* 5  a '$' comment after the '&' *)
-Definition wit5 : list string := mk3 [wt] [] ["2 0 1 -2 &" ++ lf] ["imp:n=1" ++ lf].
-Definition wit5' : list string := mk3 [wt] [] ["2 0 1 -2 &" ++ String "$"%char " cc" ++ lf] ["imp:n=1" ++ lf].
-
 Lemma front_wt : front [wt] (Some "t").
 Proof. apply (F_title wt). reflexivity. Qed.
 
@@ -1589,9 +1579,6 @@ Proof. apply (LS_data [wt] (Some "t")); [apply front_wt|]. apply DS_comment_text
 Lemma wit4_step : layout_step wit4 wit4'.
 Proof. apply (LS_data [wt] (Some "t")); [apply front_wt|]. apply DS_dollar; try reflexivity; try constructor; dl. Qed.
 
-Lemma wit5_step : layout_step wit5 wit5'.
-Proof. apply (LS_data [wt] (Some "t")); [apply front_wt|]. apply DS_dollar; try reflexivity; try constructor; dl. Qed.
-
 Definition breaks (f f' : list string) : Prop :=
   layout_step f f' /\ within_limit 128 f = true /\ within_limit 128 f' = true /\
   read_lines 128 f <> read_lines 128 f'.
@@ -1604,9 +1591,6 @@ Lemma wit3_breaks : breaks wit3 wit3'.
 Proof. split; [apply wit3_step|]. repeat split; try reflexivity. intro H. vm_compute in H. discriminate H. Qed.
 Lemma wit4_breaks : breaks wit4 wit4'.
 Proof. split; [apply wit4_step|]. repeat split; try reflexivity. intro H. vm_compute in H. discriminate H. Qed.
-Lemma wit5_breaks : breaks wit5 wit5'.
-Proof. split; [apply wit5_step|]. repeat split; try reflexivity. intro H. vm_compute in H. discriminate H. Qed.
-
 Theorem layout_refuted : exists w f f', layout_equiv w f f' /\ read_lines w f <> read_lines w f'.
 Proof.
   exists 128, wit1, wit1'. destruct wit1_breaks as (H1 & H2 & H3 & H4). split; auto.
